@@ -383,7 +383,16 @@ def unbounded_proofs(chk):
     for L in (0, 2, 3):
         r = tlc.require_ok(tlc.run('CacheViewRef', cfg='CacheViewRef_%d' % L, timeout=900), 'CacheViewRef_%d' % L)
         chk.add_tlc(r, 'CacheViewRef', 'CacheViewRef_%d' % L)
-    apalache.inductive(chk, 'CacheViewInt', negative=[('Variant = "fixed"', 'Variant = "orig"')])
+    for P in ('mem', 'file'):
+        for C in ('TRUE', 'FALSE'):
+            cfg = 'SortCacheRef_%s_%s' % (P, C)
+            r = tlc.require_ok(tlc.run('SortCacheRef', cfg=cfg, timeout=900), cfg)
+            chk.add_tlc(r, 'SortCacheRef', cfg)
+    from concurrent.futures import ThreadPoolExecutor
+    jobs = [('CacheViewInt', [('Variant = "fixed"', 'Variant = "orig"')]),
+            ('SortCacheInt', [('CacheFlag \\in BOOLEAN /\\ Variant = "fixed"', 'CacheFlag \\in BOOLEAN /\\ Variant = "orig"')])]
+    with ThreadPoolExecutor(max_workers=2) as ex:
+        list(ex.map(lambda j: apalache.inductive(chk, j[0], negative=j[1]), jobs))
 
 
 COVER = [
